@@ -1039,9 +1039,9 @@ Proof.
          end; rewrite ?dget_dset; reflexivity.
 Qed.
 
-Lemma call_details_caller : forall cfg caller callee rg opts proc,
-    dget (call_details cfg caller callee rg opts proc) "caller" = None \/
-    dget (call_details cfg caller callee rg opts proc) "caller" = Some (vid (s_id caller)).
+Lemma call_details_caller : forall cfg caller callee callee_id rg opts proc,
+    dget (call_details cfg caller callee callee_id rg opts proc) "caller" = None \/
+    dget (call_details cfg caller callee callee_id rg opts proc) "caller" = Some (vid (s_id caller)).
 Proof.
   intros. unfold call_details.
   repeat match goal with |- context [if ?c then _ else _] => destruct c end;
